@@ -97,6 +97,10 @@ class HirIndex:
                 if child is p.get("body") and p.get("guard") is not None:
                     out += conjuncts(p["guard"])
             child = p
+        # early returns: `if c { ...; return }` before the node gives !c afterwards
+        for st in self.preceding_stmts(node):
+            if st.get("k") == "If" and st.get("else") is None and _diverges(st["then"]):
+                out += [("not", c) for c in disjuncts(st["cond"])]
         # normalise ("not", Unary !x) -> x
         res = []
         for c in out:
@@ -122,6 +126,23 @@ class HirIndex:
                     out.append(s)
             child = p
         return out
+
+
+def _diverges(block):
+    """block certainly ends in return / break / continue / panic"""
+    b = block
+    while b.get("k") == "Block":
+        if b.get("expr") is not None:
+            b = b["expr"]
+        elif b.get("stmts"):
+            b = b["stmts"][-1]
+        else:
+            return False
+    if b.get("k") in ("Ret", "Break", "Continue"):
+        return True
+    if b.get("k") == "Call" and "panic" in (b.get("callee") or ""):
+        return True
+    return False
 
 
 def conjuncts(e):
